@@ -10,8 +10,8 @@ import (
 	"runtime"
 	"runtime/debug"
 	"sync"
-	"time"
 	"testing"
+	"time"
 
 	"verif/mc/ev"
 )
@@ -55,7 +55,7 @@ func TestCheck(t *testing.T) {
 		"blocktransactions commit orders: each ingest range in its own batch, all orders; batches holding several ranges produce a subset of these crash images",
 		"cancel-at-read injections race with the source goroutine (free-running after the injection); outcomes are checked, not the exact emission count",
 		"statedifflength: the assignment of blocks to the per-worker batches follows two release policies (lowest / highest parked block first), not all assignments; its writes are per-block idempotent",
-		"part b runs the real historyprunner (retainedBlocks as configured, min-age 0, L1 head = chain tip) on the chains named 'prune-mode toggled', where each process start chooses off / on with the chain's retained value R / on with a window longer than the chain (len+100); other retained values (cutoff moving up or down by a few blocks between starts) are not enumerated; headstate is a disabled placeholder (its flag combinations are covered on the runner in part a)",
+		"part b runs the real historyprunner (retainedBlocks as configured, min-age 0, L1 head = chain tip, or lagging it on the chains that say so) on the chains named 'prune-mode toggled', where each process start chooses off / on with the chain's retained value R / on with a window longer than the chain (len+100); other retained values (cutoff moving up or down by a few blocks between starts) are not enumerated; headstate is a disabled placeholder (its flag combinations are covered on the runner in part a)",
 		"images behind the reported half-pruned no-op case (abrupt interruption of a started prune, then a start with the long window) are tainted: explored for crashes / refusals, their content is not judged again",
 		"old-layout chains carry one legacy history entry per storage / nonce diff (the layout pruner/testutils writes), which the history-prune migration stages and restores",
 	)
@@ -74,8 +74,14 @@ func TestCheck(t *testing.T) {
 	addPruneShape := func(n int, pat string, retained int) {
 		shapes = append(shapes, shapeSpec{Name: fmt.Sprintf("%d blocks %s prune-mode toggled, retain %d", n, pat, retained), Shape: mkShape(n, pat), PruneR: retained})
 	}
+	// the same with the recorded L1 head lagging the tip: the pivot is the L1 head; below the retention window = no-op
+	addPruneShapeLag := func(n int, pat string, retained, lag int) {
+		shapes = append(shapes, shapeSpec{Name: fmt.Sprintf("%d blocks %s prune-mode toggled, retain %d, L1 head %d below the tip", n, pat, retained, lag),
+			Shape: mkShape(n, pat), PruneR: retained, L1Lag: lag})
+	}
 	if r.Quick() {
 		addPruneShape(14, "dense", 3)
+		addPruneShapeLag(14, "dense", 3, 11) // L1 head 2 < retained 3 <= height 13: nothing may be pruned
 		for _, n := range []int{0, 1, 10, 11, 36} {
 			addShape(n, "mixed", 0)
 		}
@@ -87,7 +93,9 @@ func TestCheck(t *testing.T) {
 		addPruneShape(14, "dense", 3)
 		addPruneShape(14, "mixed", 0)
 		addPruneShape(23, "mixed", 6)
-		addPruneShape(5, "dense", 9) // chain shorter than the retention window: the prune migration is a no-op
+		addPruneShape(5, "dense", 9)         // chain shorter than the retention window: the prune migration is a no-op
+		addPruneShapeLag(14, "dense", 3, 11) // L1 head 2 < retained 3 <= height 13: nothing may be pruned
+		addPruneShapeLag(14, "dense", 3, 4)  // L1 head 9: cutoff 6
 		for _, n := range []int{12, 36} {
 			addShape(n, "sparse", 0)
 			addShape(n, "lead-empty", 0)
